@@ -22,6 +22,15 @@ class Violation(Exception):
         return (self.prop, self.rule, tuple(sorted(self.facets.items())))
 
 
+class SimAbort(BaseException):
+    """Raised from inside a simulated seam to stop a run at once with a violation (BaseException so that no
+    `except Exception` of the code under test can swallow it)."""
+
+    def __init__(self, violation):
+        super().__init__(str(violation))
+        self.violation = violation
+
+
 def gwf_src():
     """Where gwf is imported from: the working tree of /repo (or a mutant copy)."""
     return os.environ.get("VERIF_GWF_SRC", "/repo/src")
